@@ -22,7 +22,7 @@ PROPERTIES = ["SortIsOnePermutation", "RejectedChangesNothing", "NameIsKey", "Ds
               "CopiesAreFresh", "ShallowCopySharesMembers", "DeepCopyDisjoint"]
 
 
-def write_cfg(name, acts, depth, emit, keys=("a", "b"), maxobj=13, maxgrp=4, check=True, idx=None, ops=None, objs=None, grps=None, paths=False):
+def write_cfg(name, acts, depth, emit, keys=("a", "b"), maxobj=14, maxgrp=4, check=True, idx=None, ops=None, objs=None, grps=None, paths=False):
     os.makedirs(os.path.join(common.WORK, "cfg"), exist_ok=True)
     path = os.path.join(common.WORK, "cfg", name + ".cfg")
     lines = ["INIT Init", "NEXT Next",
@@ -113,9 +113,9 @@ def init_state():
 
     def obj(kind, bufs_, n, u, dt, scalar=False):
         return {"k": kind, "c": [{"buf": b, "idx": list(range(1, n + 1))} for b in bufs_], "s": scalar, "u": U[u], "n": "", "dt": dt}
-    bufs = [ints([3, 1, 2]), ints([20, 30, 10]), ints([7, 5]), ints([9]), ints([100, 300, 200]), ints([4, 6, 5]), ints([2, 0, 1]), ints([500, 700, 100]), ints([6, 2, 4]), ints([900, 900, 900])]
+    bufs = [ints([3, 1, 2]), ints([20, 30, 10]), ints([7, 5]), ints([9]), ints([100, 300, 200]), ints([4, 6, 5]), ints([2, 0, 1]), ints([500, 700, 100]), ints([6, 2, 4]), ints([900, 900, 900]), ints([600, 200, 400])]
     heap = [obj("arr", [1], 3, "m", "f8"), obj("arr", [2], 3, "s", "f8"), obj("arr", [3], 2, "m", "f8"), obj("arr", [4], 1, "m", "f8", True),
-            obj("vec", [5, 6], 3, "cm", "f8"), obj("arr", [7], 3, "", "i8"), obj("arr", [8], 3, "cm", "f8"), obj("arr", [9], 3, "m", "f4"), obj("arr", [10], 3, "cm", "f8")]
+            obj("vec", [5, 6], 3, "cm", "f8"), obj("arr", [7], 3, "", "i8"), obj("arr", [8], 3, "cm", "f8"), obj("arr", [9], 3, "m", "f4"), obj("arr", [10], 3, "cm", "f8"), obj("arr", [11], 3, "cm", "f8")]
     g0 = {"keys": [], "val": [], "name": "", "parent": 0}
     return {"heap": heap, "bufs": bufs, "dgs": [dict(g0), dict(g0)], "dss": [{"keys": [], "val": [], "meta": []}], "res": {"t": "none"}}
 
